@@ -62,7 +62,7 @@ class CheckArraySize(FnContract):
         else:
             ex.prove('C03:_check_array_size:raises-only-at-the-cap', ['C03'], n >= F.MAX_ARRAY, w)
             ex.prove('C03:_check_array_size:cap-error-is-ParserError', ['C03', 'C16'], L.exc_is_sub(outcome[1], PE))
-        frame_check(ex, ctx, [], '_check_array_size', ['C03'])
+        frame_check(ex, ctx, [], '_check_array_size', ['C03', 'C13'])
 
 
 def check_array_size_task(engine):
@@ -119,7 +119,7 @@ class ListKeyCast(FnContract):
                      z3.If(L.is_Dec(k), z3.And(L.is_Int(outcome[1]),
                                                Val.i(outcome[1]) == L.UF('dec_trunc', I, I)(Val.d(k))),
                            outcome[1] == k))
-        frame_check(ex, ctx, [], '_list_key_cast', ['C14'])
+        frame_check(ex, ctx, [], '_list_key_cast', ['C14', 'C13'])
 
 
 class DictKeyCast(FnContract):
@@ -136,7 +136,7 @@ class DictKeyCast(FnContract):
         if outcome[0] == 'return':
             ex.prove('C14:_dict_key_cast:keys-normalised-to-strings', ['C14', 'C07'],
                      outcome[1] == z3.If(L.is_Str(k), k, L.StrV(L.str_of(k))))
-        frame_check(ex, ctx, [], '_dict_key_cast', ['C14'])
+        frame_check(ex, ctx, [], '_dict_key_cast', ['C14', 'C13'])
         try:
             flag = ex.engine.src.const('functions', 'CAST_DICT_KEYS_TO_STRINGS')
         except Exception:
@@ -165,7 +165,7 @@ class KeyCast(FnContract):
                      z3.If(L.is_Dict(c), z3.BoolVal(bool(d) and not l), z3.BoolVal(bool(l) and not d)))
             for e in d + l:
                 ex.prove('C14:_key_cast:casts-the-key-itself', ['C14', 'C07'], z3.And(e[2] == k, outcome[1] == e[3]))
-        frame_check(ex, ctx, [], '_key_cast', ['C14'])
+        frame_check(ex, ctx, [], '_key_cast', ['C14', 'C13'])
 
 
 def prims_of(ex, kind):
